@@ -20,9 +20,9 @@
 //   that ranges anywhere on the real line (negative, beyond 2 pi) can be compared with their limits.
 //   session <k> <call> ;; <call> ;; ... (k calls, each one of the four lines above)
 //       -> for every call: its output as above, then the value of the same call made in a process that has made no other call, then '|'
-//   A session is a call history: it runs in a process of its own that is started afresh from the harness' executable (so that what a
-//   replay of the line sees is what the run saw), the reference values come from children forked from that process before it has
-//   called the library, then the k calls are made one after the other in that process.
+//   A session is a call history.  Every case line (session or not) is answered by a process of its own forked from a worker that never
+//   calls the library; in a session the reference values come from children forked from that process before it has called the
+//   library, then the k calls are made one after the other in it.
 #include "common.hpp"
 #include "libphysica/Integration.hpp"
 #include "libphysica/Linear_Algebra.hpp"
@@ -284,21 +284,18 @@ static std::string in_forked_child(const vh::Reader& r0, size_t start)
 	return ans.substr(0, ans.find(' '));
 }
 
-// the body of a session, in the process started for it
-static int session_main(const std::string& line)
+// the body of a session, in the process forked for it (which has not called the library yet)
+static void session_body(vh::Reader& r, vh::Out& o)
 {
-	vh::Reader r(line);
-	r.word();
 	long k = r.integer();
 	std::vector<size_t> starts;
 	for(size_t j = r.i; j < r.t.size() && r.t[j] != "#"; j++)
 		if(is_op(r.t[j]) && (j == r.i || r.t[j - 1] == ";;"))
 			starts.push_back(j);
-	vh::Out o;
 	if((long) starts.size() != k)
 	{
-		if(write(3, "HARNESSERR session_shape\n", 25) != 25) {}
-		return 0;
+		o.w("HARNESSERR session_shape");
+		return;
 	}
 	std::vector<std::string> fresh;
 	for(size_t s : starts)
@@ -311,30 +308,14 @@ static int session_main(const std::string& line)
 		o.w(fresh[c]);
 		o.w("|");
 	}
-	std::string t = o.s.str() + "\n";
-	size_t off	  = 0;
-	while(off < t.size())
-	{
-		ssize_t w = write(3, t.c_str() + off, t.size() - off);
-		if(w <= 0)
-			break;
-		off += w;
-	}
-	return 0;
 }
 
-static std::string g_self;
+// Every case line is answered by a process of its own, forked from the runner's worker, which itself never calls the library: the statics
+// of the library are those of a fresh process at the start of every case, the only call histories are the ones spelled out in the
+// session lines, and a replay of a line alone sees what the run saw.  When the child ends without an answer (the library terminated the
+// process, a crash, the time limit) the worker ends the same way, so that the runner records it.
 static void handler(vh::Reader& r, vh::Out& o)
 {
-	std::string op = r.word();
-	if(op != "session")
-	{
-		do_call(op, r, o);
-		return;
-	}
-	std::string line;
-	for(size_t k = 0; k < r.t.size(); k++)
-		line += (k ? " " : "") + r.t[k];
 	int pfd[2];
 	if(pipe(pfd) != 0)
 	{
@@ -344,17 +325,33 @@ static void handler(vh::Reader& r, vh::Out& o)
 	fflush(stdout);
 	fflush(stderr);
 	pid_t pid = fork();
+	if(pid < 0)
+	{
+		o.w("HARNESSERR no_fork");
+		return;
+	}
 	if(pid == 0)
 	{
 		close(pfd[0]);
-		if(pfd[1] != 3)
+		alarm(58);
+		vh::Out oc;
+		std::string op = r.word();
+		if(op == "session")
+			session_body(r, oc);
+		else
+			do_call(op, r, oc);
+		std::string t = oc.s.str() + "\n";
+		size_t off	  = 0;
+		while(off < t.size())
 		{
-			dup2(pfd[1], 3);	 // the answer; what the library prints goes to the runner's file of diagnostics (stdout, stderr)
-			close(pfd[1]);
+			ssize_t w = write(pfd[1], t.c_str() + off, t.size() - off);
+			if(w <= 0)
+				break;
+			off += w;
 		}
-		alarm(55);
-		execl(g_self.c_str(), g_self.c_str(), "--session", line.c_str(), (char*) nullptr);
-		_exit(77);
+		fflush(stdout);
+		fflush(stderr);
+		_exit(0);
 	}
 	close(pfd[1]);
 	std::string ans;
@@ -367,7 +364,6 @@ static void handler(vh::Reader& r, vh::Out& o)
 	waitpid(pid, &st, 0);
 	if(WIFSIGNALED(st))
 	{
-		// the session ended the way a worker would have: end this worker the same way, so that the runner records it
 		signal(WTERMSIG(st), SIG_DFL);
 		raise(WTERMSIG(st));
 		_exit(1);
@@ -378,12 +374,4 @@ static void handler(vh::Reader& r, vh::Out& o)
 		ans.pop_back();
 	o.w(ans);
 }
-int main(int argc, char** argv)
-{
-	if(argc >= 3 && std::string(argv[1]) == "--session")
-		return session_main(argv[2]);
-	char self[4096];
-	ssize_t n = readlink("/proc/self/exe", self, sizeof self - 1);
-	g_self	  = n > 0 ? std::string(self, n) : std::string(argv[0]);
-	return vh::run(argc, argv, handler, 60);
-}
+int main(int argc, char** argv) { return vh::run(argc, argv, handler, 60); }
